@@ -19,6 +19,7 @@ func checkC06(c *Check, a *Anchors) {
 	c06RunModeSwitch(c, a)
 	dedupAtomic(c, a, "dedup-atomic")
 	dedupEmptyKey(c, a)
+	tableEntriesPermanent(c, a)
 	sharedWait(c, a)
 	c06HashSeesInputs(c, a)
 	c06OnceKey(c, a)
